@@ -9,10 +9,12 @@ package hsrv
 //@   nonnil sl, iob, och, defTmpl
 
 //@ func remoteHost(r) (h)
+//@   locals r h err
 //@   pure
 //@   trusted
 
 //@ func Server.requestLogger(s, r) (l)
+//@   locals s r sni
 //@   props C11
 //@   ensures nonnil: l != nil
 
@@ -20,30 +22,35 @@ package hsrv
 // client-derived text is never in the format position.
 
 //@ func Server.Printf(s, color, format, v)
+//@   locals s color format v
 //@   props C10 C09 C05
 //@   ghost n int = 0
 //@   on send s.och(cl): assert(cl.Line == sprintf(format, v) && cl.Color == color && cl.NoTimestamp && !cl.Plain, "line_is_the_formatted_message"); n++
 //@   ensures one_line: n == 1
 
 //@ func Server.Logf(s, color, format, v)
+//@   locals s color format v
 //@   props C10 C09 C05
 //@   ghost n int = 0
 //@   on send s.och(cl): assert(cl.Line == sprintf(format, v) && cl.Color == color && !cl.Plain, "line_is_the_formatted_message"); n++
 //@   ensures one_line: n == 1
 
 //@ func Server.ErrorLogf(s, format, v)
+//@   locals s format v
 //@   props C10 C09 C05
 //@   ghost n int = 0
 //@   on enter Server.Logf(ss, c, f, vv): assert(ss == s && c == ErrorColor && sprintf(f, vv) == sprintf(format, v), "message_passed_on_unchanged"); n++
 //@   ensures one_line: n == 1
 
 //@ func Server.RLogf(s, color, r, format, v)
+//@   locals s color r format v
 //@   props C10 C09 C05
 //@   ghost n int = 0
 //@   on enter Server.Logf(ss, c, f, vv): assert(ss == s && c == color && sprintf(f, vv) == "[" + remoteHost(r) + "] " + sprintf(format, v), "notice_is_host_plus_message_verbatim"); n++
 //@   ensures one_line: n == 1
 
 //@ func Server.RErrorLogf(s, r, format, v)
+//@   locals s r format v
 //@   props C10 C09 C05
 //@   ghost n int = 0
 //@   on enter Server.ErrorLogf(ss, f, vv): assert(ss == s && sprintf(f, vv) == "[" + remoteHost(r) + "] " + sprintf(format, v), "notice_is_host_plus_message_verbatim"); n++
@@ -53,6 +60,7 @@ package hsrv
 // and nowhere else, with the path value as key.
 
 //@ func Server.inputHandler(s, w, r)
+//@   locals s w r
 //@   props C01 C02
 //@   ghost n int = 0
 //@   flows w: Broker.ConnectIn
@@ -60,6 +68,7 @@ package hsrv
 //@   ensures once: n == 1
 
 //@ func Server.outputHandler(s, w, r)
+//@   locals s w r
 //@   props C01 C03
 //@   assumes body: r.Body != nil
 //@   ghost n int = 0
@@ -67,6 +76,7 @@ package hsrv
 //@   ensures once: n == 1
 
 //@ func Server.inOutHandler(s, w, r)
+//@   locals s w r rc err err
 //@   props C01 C06 C03
 //@   assumes body: r.Body != nil
 //@   ghost n int = 0
@@ -79,6 +89,7 @@ package hsrv
 
 // ---- static files (C09)
 //@ func Server.fileHandler(s, w, r)
+//@   locals s w r sl f err fi
 //@   props C09
 //@   ghost nNotice int = 0
 //@   ghost nOpen int = 0
@@ -100,6 +111,7 @@ package hsrv
 
 // ---- callback script (C07, C05)
 //@ func Server.readTemplate(s) (t, err)
+//@   locals s b err tmpl
 //@   props C07
 //@   assigns none
 //@   ghost nRead int = 0
@@ -116,6 +128,7 @@ package hsrv
 //@   ensures success_is_this_read: imp(s.tmplf != "" && !rdErr && !parseErr, err == nil && t == parsed && nParse == 1)
 
 //@ func Server.c2URL(s, r) (u, err)
+//@   locals s r err p p p err p lp err
 //@   props C07
 //@   requires tls: r.TLS != nil
 //@   requires listening: s.l.Listener != nil
@@ -147,6 +160,7 @@ package hsrv
 //@   ensures sources_consulted_in_order: imp(err == nil, stage >= 2) && imp(stage >= 5, r.TLS.ServerName != "")
 
 //@ func Server.scriptHandler(s, w, r)
+//@   locals s w r tmpl err c2 params b err
 //@   props C07 C05
 //@   assumes tls: r.TLS != nil
 //@   assumes listening: s.l.Listener != nil
@@ -175,6 +189,7 @@ package hsrv
 
 // ---- server construction and one-liners (C05, C12, C20)
 //@ func New(sl, addr, fdir, tmplf, ich, och, iob, certFile, cbAddrs, printIPv6, oneShell) (srv, err)
+//@   locals sl addr fdir tmplf ich och iob certFile cbAddrs printIPv6 oneShell l p err err s sb la
 //@   props C05 C12 C20
 //@   nilable ich
 //@   assumes default_template_parsed_at_package_init: parsedDefaultTemplate != nil
@@ -192,6 +207,7 @@ package hsrv
 //@   ensures fields: imp(err == nil, srv != nil && srv.l.Fingerprint == lfp && srv.oneShell == oneShell && srv.fdir == fdir && srv.tmplf == tmplf && srv.sl == sl && srv.iob == iob && srv.och == och && nListen == 1)
 
 //@ func Server.printCallbackHelp(s)
+//@   locals s
 //@   props C05
 //@   ghost n int = 0
 //@   on enter Server.Printf(ss, c, f, v): assert(ss == s && f == "%s" && boxes(v[0], s.cbHelp), "reprints_the_help_built_by_New"); n++
@@ -200,6 +216,7 @@ package hsrv
 // watchIOBEvents: the listener is closed iff a connected event arrives and
 // -one-shell is set; the help is re-printed iff a shell died and it is not.
 //@ func Server.watchIOBEvents(s, ctx, evCh)
+//@   locals s ctx evCh ev ok
 //@   props C12 C04 C05
 //@   assumes listening: s.l.Listener != nil
 //@   ghost pending bool = false
@@ -219,6 +236,7 @@ package hsrv
 //@   ensures handled_at_exit: imp(pending && ptype == iobroker.EventTypeConnected && s.oneShell, closed) && imp(pending && ptype == iobroker.EventTypeDisconnected && !s.oneShell, helped)
 
 //@ func Server.serveHTTP(s, ctx) (err)
+//@   locals s ctx hsvr ech err err serr
 //@   props C12
 //@   ghost nShutdown int = 0
 //@   on enter http.Server.Shutdown(h, c): assert(c == ctx, "shutdown_waits_for_the_attached_shell_as_long_as_the_server_context_lives"); nShutdown++
@@ -235,6 +253,7 @@ package hsrv
 
 // Do: the file one-liners show the listener's fingerprint.
 //@ func Server.Do(s, ctx) (err)
+//@   locals s ctx evCh a err eg ectx
 //@   props C05 C20 C04 C12
 //@   nosafety
 //@   ghost added bool = false
@@ -252,6 +271,7 @@ package hsrv
 // listener is actually bound to; every address derived from an interface
 // carries that port too.
 //@ func Server.listenAddresses(s) (addrs, err)
+//@   locals s addrs ls ap err port a p err nifs nif ifas err ifa ps p err
 //@   props C05
 //@   assumes listening: s.l.Listener != nil
 //@   ghost portv string = ""
@@ -279,6 +299,7 @@ package hsrv
 // pinkSender.Write: the http server's own error log reaches the operator as
 // one notice carrying exactly the bytes written, as data (C10).
 //@ func pinkSender.Write(ps, p) (n, err)
+//@   locals ps p n err
 //@   props C10
 //@   ghost sent int = 0
 //@   on send ps.och(v): assert(sent == 0 && v.Color == ErrorColor && v.Line == string(p) && !v.Plain, "server_error_text_is_the_notice_verbatim"); sent++
@@ -288,6 +309,7 @@ package hsrv
 // is one of those it was given, unchanged (so ports added by listenAddresses
 // survive).
 //@ func sortAddresses(as) (res)
+//@   locals as a b aa ea ab eb
 //@   props C05
 //@   ensures no_more_than_given: len(res) <= len(as)
 //@   ensures only_given_addresses_unchanged: forall(j, 0 <= j && j < len(res), exists(i, 0 <= i && i < len(as), res[j] == old(as[i])))
